@@ -56,8 +56,7 @@ def step' : Sexp → Option Sexp
         | some s => (s.count, sortReps (s.outs 0), (List.range nh).all (fun k => sortReps (s.outs k) == serial))
         | none => (c.files.countP (fun f => c.ok (c.lint f)), serial, true)
       pure (list [atom "ok", list [atom "accepted", ofBool okRun], list [atom "count", ofNat cnt],
-        list (atom "reports" :: reports.map repSexp), list [atom "same-multiset", ofBool same],
-        list [atom "known-output-lost", ofBool (KnownOutputLost w)]])
+        list (atom "reports" :: reports.map repSexp), list [atom "same-multiset", ofBool same]])
   | _ => none
 
 def main : IO Unit := driverMain step'
